@@ -69,6 +69,12 @@ class SymFile:
             for c in (content.e if isinstance(content, SymStr) else content):
                 if not chars.test(c, lambda ch: ord(ch) < 128, "isascii"):
                     raise UnicodeDecodeError("ascii", b"\xc3", 0, 1, "ordinal not in range(128)")
+        elif enc in ("utf-8-sig", "utf-8sig"):
+            e0 = (content.e if isinstance(content, SymStr) else content)[:1]
+            if len(e0) and chars.test(e0[0], lambda ch: ch == "\ufeff", ("eq", "\ufeff")):
+                content = SymStr(content.e[1:]).simp() if isinstance(content, SymStr) else content[1:]    # the signature is dropped by the codec
+        elif enc not in ("utf-8", "utf8"):
+            raise core.EngineError(f"open(): encoding {encoding!r} is not modelled")
         text = _translate(content) if newline is None else content
         self._io = chars.SymStringIO(text) if isinstance(text, SymStr) else __import__("io").StringIO(text)
 
